@@ -15,7 +15,7 @@ ASSUMPTIONS = ['generator bookkeeping is self-checked (recorded delimiters slice
                'balanced_inward boundary convention left open as in C09',
                'a comment never stands between a selector and its brace without a blank (the selector range then ends at the comment)']
 FLOORS = {'quick': {'position': 30000, 'document': 250, 'position:d2': 3000}, 'thorough': {'position': 2000000, 'document': 15000, 'position:d2': 150000}}
-REQUIRED_MONITORS = ['oracle:match', 'oracle:outward', 'oracle:inward']
+REQUIRED_MONITORS = ['oracle:match', 'oracle:outward', 'oracle:inward', 'oracle:retained']
 NDOCS = {'quick': 45, 'thorough': 1300}
 
 
@@ -119,7 +119,19 @@ def with_statement(src, recs, rng):
     return src[:at] + ins + src[at:], new, (at, at + L)
 
 
-def check_doc(src, recs, ctx, cm, positions=None, d2=False):
+def snap_match(m):
+    return (m.type, m.start, m.end, m.body_start, m.body_end)
+
+
+def snap_ranges(lst):
+    return [tuple(x) for x in lst]
+
+
+HELD = core.Retained(every=7)
+OTHER_SHEET = '@media (min-width: 10px) { .a:hover { color: red; b: url("x;y") } /* } */ c { d: e } }\n$v: 1px;'
+
+
+def check_doc(src, recs, ctx, cm, positions=None, d2=False, retained=False):
     ctx.ev('document')
     docase = {'src': src, 'truth': to_json(recs), 'd2': d2}
     n = len(src)
@@ -147,6 +159,7 @@ def check_doc(src, recs, ctx, cm, positions=None, d2=False):
             ctx.violation('exception', dict(case, fn='match'), {'exc': list(core.exc_site(r[1]))})
         else:
             m = r[1]
+            HELD.keep(m, snap_match, case, 'match')
             a = (m.type, m.start, m.end, m.body_start, m.body_end) if m else None
             if exp is None:
                 ok = a is None
@@ -164,6 +177,23 @@ def check_doc(src, recs, ctx, cm, positions=None, d2=False):
                 ctx.violation('match-mismatch', case, {'expected': e, 'actual': a})
             elif m is not None and len(ctx.samples) < 2 and len(cands) >= 3:
                 ctx.sample({'stylesheet': src[:300], 'pos': pos, 'match': m.to_json()})
+        # ---- the same calls made from inside a scanner callback on ANOTHER stylesheet: the answers are those of the plain calls
+        if pos % 11 == 3 and r[0] == 'ok':
+            ctx.mon('oracle:match-reentrant')
+            got = []
+
+            def cb(*a, got=got):
+                if not got:
+                    got.append(core.call(cm.match, src, pos))
+                    got.append(core.call(cm.balanced_inward, src, pos))
+            outer, plain_outer = [], []
+            core.call(cm.scan, OTHER_SHEET, lambda *a: (outer.append(tuple(a)), cb(*a))[0])
+            core.call(cm.scan, OTHER_SHEET, lambda *a: plain_outer.append(tuple(a)))
+            pi = core.call(cm.balanced_inward, src, pos)
+            if len(got) != 2 or got[0][0] != 'ok' or (got[0][1] and snap_match(got[0][1])) != (r[1] and snap_match(r[1])) \
+                    or got[1][0] != pi[0] or (pi[0] == 'ok' and snap_ranges(got[1][1]) != snap_ranges(pi[1])) or outer != plain_outer:
+                ctx.violation('reentrant-call-differs', dict(case, fn='match/balanced_inward inside a scan callback'),
+                              {'plain': r[1] and snap_match(r[1]), 'inside_callback': repr([g[0] for g in got]), 'outer_tokens_changed': outer != plain_outer})
         # ---- outward
         ctx.mon('oracle:outward')
         r = core.call(cm.balanced_outward, src, pos)
@@ -180,6 +210,7 @@ def check_doc(src, recs, ctx, cm, positions=None, d2=False):
                     push(eo, gen_css.inner_range(src, c['brace'] + 1, c['close']))
                     push(eo, (c['start'], c['end']))
             ao = [tuple(x) for x in r[1]]
+            HELD.keep(r[1], snap_ranges, case, 'balanced_outward')
             if ao != eo:
                 ctx.violation('outward-mismatch', case, {'expected': eo[:8], 'actual': ao[:8]})
         # ---- inward
@@ -189,6 +220,7 @@ def check_doc(src, recs, ctx, cm, positions=None, d2=False):
             ctx.violation('exception', dict(case, fn='balanced_inward'), {'exc': list(core.exc_site(r[1]))})
             continue
         ai = [tuple(x) for x in r[1]]
+        HELD.keep(r[1], snap_ranges, case, 'balanced_inward')
         why = None
         if cands and not ai:
             why = 'empty although the position is strictly inside a rule or declaration'
@@ -214,6 +246,9 @@ def check_doc(src, recs, ctx, cm, positions=None, d2=False):
                     why = 'not the first-child chain: expected %r' % (chain[:8],)
         if why:
             ctx.violation('inward-mismatch', case, {'why': why, 'actual': ai[:8]})
+    if len(HELD.items) > 150 or retained:
+        # results kept by the caller are read again after the calls on this stylesheet (and on the ones before it)
+        HELD.verify(ctx)
 
 
 def run_shard(desc, ctx):
@@ -240,6 +275,7 @@ def run_shard(desc, ctx):
                     ctx.ev('document:with-statement')
                     lo, hi = ws[2]
                     check_doc(ws[0], ws[1], ctx, cm, positions=[q for q in range(len(ws[0]) + 1) if not (lo <= q <= hi)])
+        HELD.verify(ctx)
     finally:
         pr.uninstall()
     for k, v in pr.reach().items():
@@ -250,7 +286,7 @@ def replay(case, ctx):
     from emmet import css_matcher as cm
     recs = from_json(case['truth'])
     gen_css.self_check(case['src'], recs)
-    check_doc(case['src'], recs, ctx, cm, positions=[case['pos']], d2=case.get('d2', False))
+    check_doc(case['src'], recs, ctx, cm, positions=None if case.get('retained') else [case['pos']], d2=case.get('d2', False), retained=True)
 
 
 # ---- known findings (mechanism classifiers; active only while listed as open) -------
